@@ -40,9 +40,10 @@ def contains (e : Ellipse) (p : Pt) : Bool :=
 
 /-- `OffsetOutline::offset` -/
 def offset (e : Ellipse) (o : Int) : Ellipse :=
-  let size := if o ≥ 0 then e.size.satAdd (Sz.newEqual (2 * o.toNat))
-              else e.size.satSub (Sz.newEqual (2 * (-o).toNat))
-  withCenter e.center size
+  if o ≥ 0 then
+    -- growing moves the top left corner directly (a zero sized side has no centre pixel)
+    ⟨e.tl - ⟨o, o⟩, e.size.satAdd (Sz.newEqual (2 * o.toNat))⟩
+  else withCenter e.center (e.size.satSub (Sz.newEqual (2 * (-o).toNat)))
 
 def translate (e : Ellipse) (by_ : Pt) : Ellipse := { e with tl := e.tl + by_ }
 
